@@ -63,7 +63,9 @@ P("C02", "exploration",
   "sub-threshold subset for t<=5; explicit attacker Lagrange interpolation on sub-threshold subsets. M2: 8..32-byte secrets "
   "(measurement, aux, client randomness, r0, r1, K, K as element, encryption key, 16-byte prefixes) scanned at every offset of every "
   "encoded report, and M/R/K in adss shares. M3: Newton interpolation of t of t+2 shares: exact degree, non-zero pairwise distinct "
-  "coefficients, global coefficient set across neighbour sharings. distinct = (collection kind, t, size) / (scan shape) / (t, neighbour kind).",
+  "coefficients, global coefficient set across neighbour sharings (keyed on the actual triple). Large-threshold stream: t in {256,257,300,513} "
+  "(thorough to 1025): t-1, 255, 256, t/2 honest distinct shares must neither recover nor interpolate to the key. distinct = (collection "
+  "kind, t, size) / (scan shape) / (t, neighbour kind).",
   ["secrecy is decided only in the observable formulations of the statement (never returned, not at any offset, attacker "
    "interpolation fails, coefficients not shared) - not indistinguishability",
    "coins needle r1 is used only when the public derivation reproduces r0"],
@@ -105,9 +107,11 @@ P("C05", "fault_enumeration",
   "for sharings with t=2..6: every field of the encoded share (threshold, S length, x, y, C length, C, D length, D, J) x every byte "
   "position x faults {flip bit0, flip bit7, +1, :=00, :=FF} (thorough: all 8 bit flips) x position of the faulted share "
   "(first / inside the first t / beyond), at adss::recover and sta_rs::share_recover; mixtures of up to 3 sharings in random orders "
-  "with repeats; cross-grafting C/D/J/threshold of another sharing into the first share. distinct = (field, position class, fault, "
-  "byte offset, t) and mixture shapes.",
-  ["field offsets come from the independent layout parser", "an alteration counts as such when the layout-level value of the share changed"],
+  "with repeats; cross-grafting C/D/J/threshold of another sharing into the first share; value-level faults of the four u32 fields "
+  "(:= 0,1,2,3,v-1,v+1,v+2,24,48,255,256,65536+v,2^31,2^32-1); honest threshold-1 sharings. distinct = (field, position class, fault, "
+  "byte offset / value, t) and mixture shapes.",
+  ["field offsets come from the independent layout parser", "an alteration counts as such when the layout-level value of the share changed",
+   "'must be rejected' is asserted only with >= 16 authenticated bytes (|M|+|R|) and not for x-faults at threshold 1 (still a valid share)"],
   {"recover_faulted": 50000, "outcome_err": 10000, "outcome_ok_right_message": 5000},
   [REL, DEV_T],
   "runtime fault enumeration against ground-truth messages",
@@ -196,7 +200,8 @@ P("C11", "exploration",
   "through the verif-hooks view of the retained nodes: I2 no retained prefix is an ancestor of a punctured leaf, I3 every unpunctured "
   "leaf covered, I5 no retained seed equals a shadow-tree seed on a root->punctured-leaf path; Server-level histories over all 256 "
   "tags with export -> bincode -> import into a fresh server at EVERY position: exported bytes scanned for forbidden seeds (layout-free), "
-  "importer view equal to exporter's, attacker run evaluating every punctured tag on the importer. states = distinct punctured sets.",
+  "importer view equal to exporter's, attacker run evaluating every punctured tag on the importer; the same exports also go into two "
+  "PERSISTENT replicas (re-synced at every / every 3rd position) that already hold an earlier state. states = distinct punctured sets.",
   ["needs ppoprf feature verif-hooks (read-only view of private fields)", "remnants in freed heap memory are out of scope of the statement"],
   {"material_checks": 100000, "exports": 500, "imports": 500, "attacker_evaluations": 10000},
   [REL],
@@ -222,7 +227,9 @@ P("C13", "fault_enumeration",
   "monitor recomputing s*G + c*PK from the public verification equation over all proofs of the run; single-component tampering of "
   "(base public key, per-tag public key, whole key of another server, input point, output point, tag, c, s, whole proof) by: other "
   "honest value, +-G / 2x / negation / random multiple, identity, base point, +-1 / negation / bit flips (16 sampled, thorough all 256) "
-  "/ zero / one for scalars, other registered and unregistered tags. distinct = (component, variant, case).",
+  "/ zero / one for scalars, other registered and unregistered tags; reference verification procedure on every honest proof "
+  "(challenge over B, M, Z, t2, t3 recomputed with the Strobe hash; on mismatch the five one-element-dropped transcripts are tried). "
+  "distinct = (component, variant, case).",
   ["tampering another tag's entry, or compensating base/tag changes, keep the commitment and must verify (excluded by the statement)"],
   {"tampered_verifications": 30000, "honest_proofs": 1000, "nonce_commitments_recomputed": 1000},
   [REL],
@@ -234,7 +241,8 @@ P("C13", "fault_enumeration",
 
 P("C14", "exploration",
   "(a) bounded-exhaustive: EVERY sequence of depth 5 (thorough 6) over {eval(a), eval(b), eval(u), puncture(a), puncture(b), "
-  "puncture(u), export+import, clone+switch} for 6 tag configurations incl. 0/255/adjacent tags, all instances checked against the "
+  "puncture(u), export+import into a fresh instance, clone+switch, re-sync into the oldest instance} for 4 (thorough 6) tag "
+  "configurations incl. 0/255/adjacent tags, all instances checked against the "
   "sequential model at every leaf; (b) random histories (100-260 ops, thorough to 2 000) over 2..256 registered tags with a throw-away "
   "export->import->compare at EVERY position; (c) concurrent stress in the shape of examples/server.rs (Arc<RwLock<Server>>, 8-15 "
   "evaluating threads, a puncturing and an exporting thread, seeded yields), call/return tickets from one atomic clock, offline "
@@ -244,7 +252,7 @@ P("C14", "exploration",
    "histories_with_real_overlap": 1},
   [REL_LONG, TSAN_C14],
   "runtime sequential reference model: bounded-exhaustive operation sequences on the real Server + offline history checker for the concurrent stress",
-  "All 8^5 (8^6) sequences per configuration executed; held on every leaf; concurrent histories checked offline.",
+  "All 9^5 (9^6) sequences per configuration executed; held on every leaf; concurrent histories checked offline.",
   "model: registered set fixed at creation, punctured set per instance, memo of answers")
 
 P("C15", "fault_enumeration",
@@ -275,7 +283,8 @@ P("C16", "exploration",
 P("C17", "exploration",
   "create_share / group_shares called natively over arbitrary-byte measurements (incl. empty, zero), t=1..32, epochs empty / ASCII / "
   "multi-byte UTF-8 / control characters, 2t shares per case: strict JSON, base64 fields, equality with the core library's key and "
-  "tag, share equal to a core share but for its point; grouping with t, t+1, 2t shares, t-1 shares (also padded with repeats), "
+  "tag, share equal to a core share but for its point; grouping with t, t+1, 2t shares and with the seven selection patterns of C01 "
+  "(repeats anywhere / in front, permutations, surplus), t-1 shares (also padded with repeats), "
   "mixtures below every threshold, four wrong epochs. distinct = (t, measurement length, epoch).",
   ["star-wasm is built as an rlib and called natively (wasm-bindgen glue not exercised)"],
   {"create_share": 10000, "group_shares": 3000, "group_shares_below_threshold": 1000, "group_shares_mixture": 1000, "group_shares_wrong_epoch": 3000},
